@@ -35,10 +35,10 @@ COMPONENTS = {
     "real": ["eolib.packet.PacketSequencer", "eolib.packet.sequence_start.*", "EoWriter/EoReader for every message"],
     "stub_or_harness": ["SimNet (virtual-time FIFO network)", "client/server node scripts", "SimRandom"],
 }
-PROBES = ["history_continued_on_a_copy", "sequencer_looked_at", "earlier_start_object_installed_again", "sequencer_subclass_with_own_constructor", "start_constructed_ahead_of_hand_over", "start_object_changed_in_place", "user_start_derived_from_library_class", "update_at_counter_9", "update_at_counter_0", "back_to_back_updates", "update_with_packets_in_flight",
+PROBES = ["history_continued_on_a_deep_copy", "history_continued_on_a_copy", "sequencer_looked_at", "earlier_start_object_installed_again", "sequencer_subclass_with_own_constructor", "start_constructed_ahead_of_hand_over", "start_object_changed_in_place", "user_start_derived_from_library_class", "update_at_counter_9", "update_at_counter_0", "back_to_back_updates", "update_with_packets_in_flight",
           "three_wraparounds_between_updates", "reconnect", "sequence_sent_as_short", "two_pings_outstanding",
           "request_from_another_thread"]
-FAULT_KINDS = ["start_in_force_broken_at_update", "latency_jitter", "start_update_mid_burst", "reconnect", "start_unreadable_during_request", "update_during_request"]
+FAULT_KINDS = ["update_during_failed_request", "start_in_force_broken_at_update", "latency_jitter", "start_update_mid_burst", "reconnect", "start_unreadable_during_request", "update_during_request"]
 SHRINK_KEYS = ["script", "local"]
 
 
@@ -86,6 +86,14 @@ def generate(streams, tier):
         if rng.random() < 0.03:
             # the session object is duplicated (a snapshot, a hand-over to another owner) and the history goes on with the copy
             local.append(["continue_on_copy"])
+            continue
+        if rng.random() < 0.02:
+            # ... duplicated in depth: the copy owns a copy of the start, the original's start is none of its business any more
+            local.append(["continue_on_deepcopy"])
+            continue
+        if rng.random() < 0.03:
+            # a start update arrives while a request is in progress, and then that request fails
+            local.append(["failed_next_with_update_inside", rng.choice([0, 7, 240, 1756, rng.randrange(0, 70000)])])
             continue
         if rng.random() < 0.03:
             # the start in force has become unreadable for good; the application repairs the session with a new start
@@ -404,6 +412,7 @@ def run_local(plan, s, res, tr):
         res.count("probe.sequencer_subclass_with_own_constructor")
     prepared = []       # starts constructed ahead of their hand-over (kept alive)
     history_of_starts = [installed]     # every start object that has been in force (kept alive)
+    owns_start_object = True            # False after a deep copy: the sequencer then holds a start object of its own
     n, start = 0, 0
     for i, op in enumerate(plan.get("local", [])):
         if installed is not history_of_starts[-1]:
@@ -416,10 +425,44 @@ def run_local(plan, s, res, tr):
                 seq.set_sequence_start(installed)
             start = op[1]
             tr.ev("local", "set", op[1])
+            owns_start_object = True
         elif op[0] == "prepare":
             prepared.append(ProbeStart(op[1]))       # constructing a start changes nothing that is in force
             res.count("probe.start_constructed_ahead_of_hand_over")
             tr.ev("local", "prepare", op[1])
+        elif op[0] == "continue_on_deepcopy":
+            import copy as _copy
+            try:
+                clone = _copy.deepcopy(seq)
+            except Exception:  # noqa  (whether a sequencer can be deep-copied is not the property)
+                clone = None
+            if clone is not None:
+                seq = clone
+                orphaned, installed = installed, ProbeStart(start)     # `installed` only stands in for the copy's own start
+                owns_start_object = False       # ... which the harness cannot reach: in-place changes are skipped until the next hand-over
+                orphaned._v = start + 1000      # the original's start changes: the copy must not notice
+                res.count("probe.history_continued_on_a_deep_copy")
+            tr.ev("local", "deepcopy", clone is not None)
+        elif op[0] == "failed_next_with_update_inside":
+            new_start = ProbeStart(op[1])
+
+            def update_then_fail():
+                seq.set_sequence_start(new_start)
+                raise SimFault("start value unavailable after all")
+            state["on_read"] = update_then_fail
+            try:
+                got = seq.next_sequence()
+                raised = False
+            except SimFault:
+                raised = True
+            state["on_read"] = None
+            res.count("fault.update_during_failed_request")
+            tr.ev("local", "failed-next+set", raised, op[1])
+            installed = new_start
+            start = op[1]          # the update happened, whatever became of the request it arrived in
+            if not raised:
+                n += 1             # a number was handed out after all (which start it used is not prescribed, as above)
+            owns_start_object = True
         elif op[0] == "continue_on_copy":
             import copy as _copy
             try:
@@ -474,6 +517,7 @@ def run_local(plan, s, res, tr):
             start = op[1]
             res.count("fault.start_in_force_broken_at_update")
             tr.ev("local", "replace_broken", op[1])
+            owns_start_object = True
         elif op[0] == "reinstall_earlier":
             if history_of_starts:
                 installed = history_of_starts[op[1] % len(history_of_starts)]
@@ -481,13 +525,17 @@ def run_local(plan, s, res, tr):
                 start = installed._v
                 res.count("probe.earlier_start_object_installed_again")
                 tr.ev("local", "reinstall", start)
+                owns_start_object = True
         elif op[0] == "install_prepared":
             if prepared:
                 installed = prepared.pop(0)
                 seq.set_sequence_start(installed)
                 start = installed._v
                 tr.ev("local", "install", start)
+                owns_start_object = True
         elif op[0] == "set_in_place":
+            if not owns_start_object:
+                continue
             installed._v = op[1]        # "the start value in force at that moment" is what the start object says now
             start = op[1]
             res.count("probe.start_object_changed_in_place")
@@ -522,6 +570,7 @@ def run_local(plan, s, res, tr):
             state["on_read"] = None
             res.count("fault.update_during_request")
             tr.ev("local", "next+set", got, op[1])
+            owns_start_object = True
             if got not in (start + n % 10, op[1] + n % 10):
                 s.fail("sequence-value", "local", f"local history step {i}: request #{n} overlapping an update {start}->{op[1]} "
                        f"returned {got}")
